@@ -90,6 +90,18 @@ impl Model {
             Ev::Panic { msg, injected, ctx } => {
                 if !*injected {
                     viol!(self, at, "C04", "panic", "unexpected panic in {:?}: {}", ctx, msg);
+                    // the same panic, read as the property whose call or promise it broke
+                    if msg.contains("[inside subscribe]") || msg.contains("[inside unsubscribe]") {
+                        viol!(self, at, "C10", "lifecycle-call-panicked", "a subscribe / unsubscribe call panicked instead of returning its result: {}", msg);
+                    }
+                    if self.phase != Phase::Outside {
+                        if self.vars.iter().any(|v| v.pending.is_some()) {
+                            viol!(self, at, "C08", "stabilise-with-deferred-write-panicked", "stabilise panicked while a write made from inside a node function was waiting to be applied: {}", msg);
+                        }
+                        if self.dropped_handle_since_round || (self.phase == Phase::Handlers && self.dropped_handle_since_round_prev) {
+                            viol!(self, at, "C12", "stabilise-after-drop-panicked", "the stabilise that followed dropping or disallowing handles panicked: {}", msg);
+                        }
+                    }
                 }
                 self.poisoned = true;
             }
@@ -208,12 +220,16 @@ impl Model {
             }
             Act::CloneObs { oid, .. } => self.obs[*oid].clones.push(true),
             Act::DropObs { oid, clone } => {
+                self.dropped_handle_since_round = true;
                 self.obs[*oid].clones[*clone] = false;
                 if !self.obs[*oid].clones.iter().any(|c| *c) {
                     self.disallow(*oid);
                 }
             }
-            Act::Disallow { oid } => self.disallow(*oid),
+            Act::Disallow { oid } => {
+                self.dropped_handle_since_round = true;
+                self.disallow(*oid)
+            }
             Act::Subscribe { oid, sid, err } => {
                 self.cov.lifecycle_errors_checked += 1;
                 let hid = self.obs[*oid].hid;
@@ -268,10 +284,14 @@ impl Model {
                     self.any_noneq_cutoff = true;
                 }
             }
-            Act::DropNode { hid } => self.nodes[*hid].held = false,
+            Act::DropNode { hid } => {
+                self.nodes[*hid].held = false;
+                self.dropped_handle_since_round = true;
+            }
             Act::DropVar { vid } => {
                 self.vars[*vid].handle = false;
                 self.dropped_var_since_round = true;
+                self.dropped_handle_since_round = true;
             }
             Act::Memoize { m, src } => {
                 debug_assert_eq!(*m, self.memo_srcs.len());
@@ -285,7 +305,10 @@ impl Model {
                     self.nodes[*hid].held = true;
                 }
             }
-            Act::DropMemo { m } => self.memo_held[*m] = false,
+            Act::DropMemo { m } => {
+                self.memo_held[*m] = false;
+                self.dropped_handle_since_round = true;
+            }
             Act::IsStable { res } => self.on_is_stable(at, ctx, *res),
             Act::SetMaxHeight { .. } => {}
             Act::DropState => self.state_alive = false,
